@@ -130,4 +130,16 @@ PROPS = {
         "trusted_base": COMMON_TB + ["model/Eval.v + model/Ctx.v transcribe the evaluator's scope handling (c.ctx swapping with deferred restore, New(), the data copy in for / index-callee / chained calls, BlockWith, contentFor closures, partial) ; tied to the code by the render correspondence"], "assumptions": ["return inside a for body ends the iteration, not the function (established by the existing tests); the property's quantifier has no loops in function bodies"],
         "explanation": "theorems about user_call on the model (arguments evaluated in the caller scope, fresh scope, unwrapped return value) + generated decision-chain functions judged against a Go reference",
     },
+    "C13": {
+        "level": "proof", "cone": ["gen/Tables.v", "model/Eval.v", "proofs/TablesAgree.v", "props/C13.v"],
+        "trusted_base": COMMON_TB + ["determinism of the model is by construction (it is a function); the sources of nondeterminism are tied to the code by the regenerated map_range_sites table (every range over a map / MapKeys in the evaluator) and by the snapshot harness (verif hook VerifProgram)", "Go map iteration order enters only through the listed sites; for-loops over Go maps are the licensed variation"],
+        "assumptions": ["Go's type safety: no writes to the tree except through the assignments the translator can see (the one unsafe use in compiler.go is read-only)"],
+        "explanation": "table theorems over the regenerated map-range sites + repeat / clone / cache histories with tree snapshots on the implementation, and the single model answer compared",
+    },
+    "C12": {
+        "level": "proof", "cone": ["model/Eval.v", "proofs/EvalProofs.v", "props/C12.v"],
+        "trusted_base": COMMON_TB + ["bind_args / bind_fixed / bind_variadic / auto_arg of model/Eval.v transcribe the Go-function branch of evalCallExpression; reflect.AssignableTo is modelled by the assignable table over the shared type family", "silent zero-filling of up to two missing trailing parameters that are neither a map nor a helper context is modelled as the code does it and is part of the stated binding relation"],
+        "assumptions": [],
+        "explanation": "binding theorems on the model + exhaustive (signature x call shape) enumeration with recording helpers judged against a declarative binding written in Go",
+    },
 }
